@@ -408,7 +408,7 @@ func checkC13(args []string) {
 			defer func() { <-sem }()
 			parts := strings.SplitN(t, "/", 2)
 			cmd := exec.Command("go", "build", "./...")
-			cmd.Dir = "/repo"
+			cmd.Dir = repoDir()
 			cmd.Env = append(os.Environ(), "GOOS="+parts[0], "GOARCH="+parts[1], "CGO_ENABLED=0", "GOFLAGS=-mod=mod")
 			out, err := cmd.CombinedOutput()
 			if err != nil {
@@ -432,4 +432,11 @@ func checkC13(args []string) {
 	}
 	run.Cov["compile_targets"] = len(targets)
 	run.Finish()
+}
+
+func repoDir() string {
+	if d := os.Getenv("VERIF_REPO"); d != "" {
+		return d
+	}
+	return "/repo"
 }
